@@ -1,5 +1,6 @@
 import GrinVerif.Lemmas.PmmrArith
 import GrinVerif.Lemmas.PmmrSound
+import GrinVerif.Lemmas.PmmrHandle
 import GrinVerif.Spec.Mmr
 /-! # C07 — MMR positions, roots and Merkle proofs follow the MMR definition
 
@@ -826,5 +827,416 @@ example :
     simpa [m5, m7] using this
 
 end example7
+
+/-! ## 6. One live handle: arbitrary histories, any opening size
+
+`Model/PmmrHandle.lean`: a `PMMR` handle is its `size` field and its backend (hash vector, data
+vector, remove log) - the struct has nothing else. `handle_run_rep`: after every legal history of
+`push` / `rewind` the handle IS the MMR of the current element list, so (`handle_observations`)
+every observation is the MMR definition over that list and (`handle_history_independent`) two
+histories ending with the same list are indistinguishable. `push_refused_iff` /
+`push_invalid_size_identity` / `invalid_size_reads`: a handle opened at a size that is not an MMR
+size refuses `push`, changes nothing, and reports no peaks and no root; `handle_at_valid_size`: at a
+valid size inside the backend it is the MMR of the prefix. -/
+section handle
+variable {α H : Type}
+
+/-- a size is the size of an MMR (of `n` leaves, for some `n`) exactly when `peak_map_height`
+reports height 0 for it - the test `PMMR::push` makes -/
+theorem validSize_iff (s : Nat) : (peakMapHeight s).2 = 0 ↔ ∃ n, s = mmr n := by
+  obtain ⟨n, h, hh, rfl⟩ := coord_surjective s
+  rw [peakMapHeight_coord n h hh]
+  constructor
+  · intro h0
+    simp only at h0
+    subst h0
+    exact ⟨n, rfl⟩
+  · rintro ⟨m, hm⟩
+    exact (coord_injective n h m 0 hh (Nat.zero_le _) (by omega)).2
+
+/-- **push on a handle opened at a size that is not an MMR size is refused** (`Err("bad mmr
+size")`), whatever the backend holds, and only then is it refused for that reason. -/
+theorem push_refused_iff (hf : HashFn α H) (h : Handle α H) (e : α) :
+    h.push hf e = .badSize ↔ ¬ ∃ n, h.size = mmr n := by
+  rw [← validSize_iff]
+  unfold Handle.push
+  by_cases hb : (peakMapHeight h.size).2 = 0
+  · simp only [hb, ne_eq, not_true_eq_false, if_false]
+    constructor
+    · intro hp
+      split at hp <;> cases hp
+    · intro hn; exact hn.elim
+  · simp [hb]
+
+/-- … and the refused push is the identity on the state (handle and backend). -/
+theorem push_invalid_size_identity (hf : HashFn α H) (h : Handle α H) (e : α)
+    (hinv : ¬ ∃ n, h.size = mmr n) :
+    h.push hf e = .badSize ∧ Handle.step hf h (.push e) = h := by
+  have hp := (push_refused_iff hf h e).2 hinv
+  exact ⟨hp, by simp [Handle.step, hp]⟩
+
+/-- a handle (or view) opened at a size that is not an MMR size describes no MMR: no peaks, and
+`root()` is the error "no root, invalid tree" - whatever the backend holds -/
+theorem invalid_size_reads (hf : HashFn α H) (h : Handle α H) (hinv : ¬ ∃ n, h.size = mmr n) :
+    h.peaks = [] ∧ h.root hf = .err := by
+  have hpk : Pmmr.peaks h.size = [] := (peaks_eq_nil_iff h.size).2 (Or.inr hinv)
+  have hne : h.size ≠ 0 := fun h0 => hinv ⟨0, by rw [h0, mmr_zero]⟩
+  have hp : h.peaks = [] := by simp [Handle.peaks, hpk]
+  refine ⟨hp, ?_⟩
+  simp [Handle.root, hne, hp, bag]
+
+/-- pushing one more element onto the hash vector of the MMR of `xs` gives the MMR of `xs ++ [e]` -/
+theorem push_spec_hashes [DecidableEq H] (hf : HashFn α H) (xs : List α) (e : α) (hb : xs.length < 2^65) :
+    Pmmr.push hf (Spec.Mmr.hashes hf xs) e = some (Spec.Mmr.hashes hf (xs ++ [e])) := by
+  have h1 := (push_root hf xs (by omega)).1
+  have h2 := (push_root hf (xs ++ [e]) (by simp; omega)).1
+  rw [pushAll_append, h1] at h2
+  simpa [pushAll_singleton] using h2
+
+/-- **push on a valid size is `push_root`'s statement**: a handle that is the MMR of `xs` accepts the
+push and is afterwards the MMR of `xs ++ [e]` (hashes position by position, data, size). -/
+theorem handle_push [DecidableEq H] (hf : HashFn α H) (h : Handle α H) (xs : List α) (e : α)
+    (r : Handle.Rep hf h xs) (hb : xs.length < 2^65) :
+    ∃ h', h.push hf e = .ok h' ∧ Handle.Rep hf h' (xs ++ [e]) := by
+  have hlen := (push_root hf xs (by omega)).2.1
+  have hlen' := (push_root hf (xs ++ [e]) (by simp; omega)).2.1
+  have hsz : h.size = h.be.hashes.length := by rw [r.size, r.hashes, hlen]
+  have hp := push_spec_hashes hf xs e hb
+  rw [← r.hashes] at hp
+  have := (Handle.push_at_end hf h hsz e).1 _ hp
+  refine ⟨_, this, ?_, ?_, ?_, ?_⟩
+  · rfl
+  · simp [r.data]
+  · exact r.removed
+  · simp only [hlen']
+
+/-- `round_up_to_leaf_pos` does not go beyond a leaf position that is already at or above `p` -/
+theorem roundUp_le_of_le_leaf (p n : Nat) (hp : p ≤ mmr n) : roundUpToLeafPos p ≤ mmr n := by
+  obtain ⟨m, h, hh, rfl⟩ := coord_surjective p
+  rw [roundUp_spec m h hh]
+  split
+  · omega
+  · have hmn : m + 1 ≤ n := by
+      apply Nat.succ_le_of_lt
+      apply Nat.lt_of_not_ge
+      intro hge
+      have := mmr_le_mmr hge
+      omega
+    exact mmr_le_mmr hmn
+
+/-- **rewind** to a position at or below the size: the handle is afterwards the MMR of the leaves
+that lie wholly below the rounded-up position - hashes and data truncated together. -/
+theorem handle_rewind (hf : HashFn α H) (h : Handle α H) (xs : List α) (p : Nat)
+    (r : Handle.Rep hf h xs) (hp : p ≤ mmr xs.length) :
+    Handle.Rep hf (h.rewind p) (Handle.absStep xs (.rewind p))
+    ∧ ∃ k, k ≤ xs.length ∧ roundUpToLeafPos p = mmr k ∧ Handle.absStep xs (.rewind p) = xs.take k := by
+  obtain ⟨hge, hleaf⟩ := roundUp_ge p
+  obtain ⟨k, hk⟩ := (isLeaf_iff _).1 hleaf
+  simp only [insertionToPmmrIndex] at hk
+  have hle := roundUp_le_of_le_leaf p xs.length hp
+  have hkl : k ≤ xs.length := by
+    apply Nat.le_of_not_gt
+    intro hgt
+    have := mmr_lt_mmr hgt
+    omega
+  have hnl : nLeaves (roundUpToLeafPos p) = k := by rw [hk]; exact nLeaves_at_leaf_boundary k
+  have habs : Handle.absStep xs (.rewind p) = xs.take k := by simp [Handle.absStep, hnl]
+  refine ⟨?_, k, hkl, hk, habs⟩
+  rw [habs]
+  refine ⟨?_, ?_, ?_, ?_⟩
+  · simp only [Handle.rewind, VecBackend.rewind, hk, r.hashes]
+    exact hashes_take hf xs k hkl
+  · simp [Handle.rewind, VecBackend.rewind, hnl, r.data]
+  · simp [Handle.rewind, VecBackend.rewind, r.removed]
+  · simp only [Handle.rewind, hk, List.length_take, Nat.min_eq_left hkl]
+
+/-- **The handle is its element list, after every history.** Starting from a handle that is the MMR
+of `xs`, after any legal history (induction over the operation list) the handle is the MMR of the
+list the history leaves: pushes append, rewinds truncate. -/
+theorem handle_run_rep [DecidableEq H] (hf : HashFn α H) (ops : List (Handle.Op α)) :
+    ∀ (h : Handle α H) (xs : List α), Handle.Rep hf h xs → Handle.Legal xs ops →
+      Handle.Rep hf (Handle.run hf h ops) (Handle.absRun xs ops) := by
+  induction ops with
+  | nil => intro h xs r _; exact r
+  | cons op ops ih =>
+    intro h xs r hl
+    cases op with
+    | push e =>
+      obtain ⟨hb, hl'⟩ := hl
+      obtain ⟨h', hp, r'⟩ := handle_push hf h xs e r hb
+      have hs : Handle.step hf h (.push e) = h' := by simp [Handle.step, hp]
+      simp only [Handle.run, Handle.absRun, List.foldl_cons, hs]
+      exact ih h' (xs ++ [e]) r' hl'
+    | rewind p =>
+      obtain ⟨hp, hl'⟩ := hl
+      have r' := (handle_rewind hf h xs p r hp).1
+      simp only [Handle.run, Handle.absRun, List.foldl_cons]
+      exact ih _ _ r' hl'
+
+/-- the freshly created handle (`PMMR::new` on `VecBackend::new()`) is the MMR of the empty list -/
+theorem handle_new_rep (hf : HashFn α H) : Handle.Rep hf (Handle.new : Handle α H) [] :=
+  ⟨rfl, rfl, rfl, by simp [Handle.new, mmr_zero]⟩
+
+/-- **History independence.** Two legal histories of one live handle that end with the same element
+list leave the handle in the same state - backend (hashes, data, remove log) and size - hence every
+later observation (`root`, `peaks`, `merkle_proof`, `validate`, `get_hash`, `get_data`) and every
+later operation gives the same result: nothing but the current list is remembered. -/
+theorem handle_history_independent [DecidableEq H] (hf : HashFn α H) (ops₁ ops₂ : List (Handle.Op α))
+    (l₁ : Handle.Legal ([] : List α) ops₁) (l₂ : Handle.Legal ([] : List α) ops₂)
+    (hsame : Handle.absRun [] ops₁ = Handle.absRun [] ops₂) :
+    Handle.run hf (Handle.new : Handle α H) ops₁ = Handle.run hf Handle.new ops₂ := by
+  have r₁ := handle_run_rep hf ops₁ _ _ (handle_new_rep hf) l₁
+  have r₂ := handle_run_rep hf ops₂ _ _ (handle_new_rep hf) l₂
+  rw [hsame] at r₁
+  exact r₁.unique r₂
+
+/-- `n_leaves(1 + pos)` for the position of leaf `i` counts `i + 1` leaves (the index
+`VecBackend::get_data_from_file` uses) -/
+theorem nLeaves_succ_leaf (i : Nat) : nLeaves (1 + mmr i) = i + 1 := by
+  by_cases ht : trailingOnes i = 0
+  · have : 1 + mmr i = mmr (i + 1) := by rw [mmr_succ, ht]; omega
+    rw [this]; exact nLeaves_at_leaf_boundary (i + 1)
+  · have : 1 + mmr i = mmr i + 1 := by omega
+    rw [this]; exact nLeaves_mid i 1 (by omega) (by omega)
+
+/-- **Every observation on the handle is the MMR definition over the current list.** For a handle
+that is the MMR of `xs` (by `handle_run_rep`: after every legal history): size, root, peaks are
+those of the defining construction, `validate` accepts, `merkle_proof` is the proof function of the
+construction's hash vector, every present leaf has a proof that verifies against the handle's own
+root for exactly its element, `get_data` / `get_hash` at a leaf return the element pushed there and
+its leaf hash, and nothing is served at or beyond the size. -/
+theorem handle_observations [DecidableEq H] (hf : HashFn α H) (h : Handle α H) (xs : List α)
+    (r : Handle.Rep hf h xs) (hb : xs.length ≤ 2^65) :
+    h.size = mmr xs.length
+    ∧ h.root hf = (match Spec.Mmr.root hf xs with
+        | none => .zero
+        | some r => .ok r)
+    ∧ h.peaks = Spec.Mmr.peakHashes hf xs
+    ∧ h.validate hf = true
+    ∧ (∀ pos, h.merkleProof hf pos = Pmmr.merkleProof hf (Spec.Mmr.hashes hf xs) pos)
+    ∧ (∀ i (hi : i < xs.length), ∃ path rt, h.merkleProof hf (mmr i) = some (mmr xs.length, path)
+        ∧ h.root hf = .ok rt ∧ verify hf rt (mmr xs.length) path xs[i] (mmr i) = true)
+    ∧ (∀ i (hi : i < xs.length), h.getData (mmr i) = some xs[i]
+        ∧ h.getHash (mmr i) = some (hf.leaf (mmr i) xs[i]))
+    ∧ (∀ pos, h.size ≤ pos → h.getHash pos = none ∧ h.getData pos = none
+        ∧ h.merkleProof hf pos = none) := by
+  obtain ⟨_, hlen, _, _, h5, h6, h7⟩ := push_root hf xs hb
+  have hsz : h.size = h.be.hashes.length := by rw [r.size, r.hashes, hlen]
+  have hle : h.size ≤ h.be.hashes.length := by omega
+  have htake : h.be.hashes.take h.size = Spec.Mmr.hashes hf xs := by
+    rw [hsz, List.take_length, r.hashes]
+  have hroot : h.root hf = (match Spec.Mmr.root hf xs with
+        | none => .zero
+        | some r => .ok r) := by
+    rw [Handle.root_eq_view hf h hle]
+    show Pmmr.root hf (h.be.hashes.take h.size) = _
+    rw [htake]; exact h6
+  have hproof : ∀ pos, h.merkleProof hf pos = Pmmr.merkleProof hf (Spec.Mmr.hashes hf xs) pos := by
+    intro pos
+    rw [Handle.merkleProof_eq_view hf h hle]
+    have := Handle.vProof_no_removed hf h.be.hashes pos
+    simp only [Handle.toV, r.removed, hsz]
+    rw [this, r.hashes]
+  have hnone : ∀ pos, h.size ≤ pos → h.getHash pos = none := by
+    intro pos hp
+    simp [Handle.getHash, hp]
+  refine ⟨r.size, hroot, ?_, ?_, hproof, ?_, ?_, ?_⟩
+  · rw [Handle.peaks_eq_view h hle]
+    simp only [vPeaks, vFile, Handle.toV, htake, h5]
+  · rw [Handle.validate_eq hf h hle, htake, h7]
+  · intro i hi
+    obtain ⟨path, rt, p1, p2, p3⟩ := proof_complete hf xs i hi
+    refine ⟨path, rt, by rw [hproof, p1], ?_, p3⟩
+    rw [hroot, p2]
+  · intro i hi
+    have hlt : mmr i < h.size := by rw [r.size]; exact mmr_lt_mmr hi
+    have hleaf : isLeaf (mmr i) = true := (isLeaf_iff _).2 ⟨i, rfl⟩
+    have hng : ¬ (mmr i ≥ h.size) := by omega
+    constructor
+    · simp only [Handle.getData, hng, if_false, hleaf, if_true, VecBackend.getData, r.removed,
+        VecBackend.getDataFromFile, r.data, nLeaves_succ_leaf]
+      simp [hi]
+    · simp only [Handle.getHash, hng, if_false, hleaf, if_true, VecBackend.getHash, r.removed,
+        VecBackend.getFromFile, r.hashes]
+      simpa using hash_at_leaf hf xs i hi
+  · intro pos hp
+    refine ⟨hnone pos hp, by simp [Handle.getData, hp], ?_⟩
+    unfold Handle.merkleProof
+    rw [hnone pos hp]
+    by_cases hl : isLeaf pos = true <;> simp [hl]
+
+/-- a proof that verifies against the root of a live handle after any legal history pins a leaf of
+the CURRENT list, its element and the path the handle itself hands out (collision-free hashes) -/
+theorem handle_proof_sound [DecidableEq H] (hf : HashFn α H) (cf : CollisionFree hf)
+    (ops : List (Handle.Op α)) (l : Handle.Legal ([] : List α) ops)
+    (hb : (Handle.absRun ([] : List α) ops).length ≤ 2^65) (rt : H)
+    (hr : (Handle.run hf (Handle.new : Handle α H) ops).root hf = .ok rt)
+    (path : List H) (e : α) (pos : Nat)
+    (hv : verify hf rt (Handle.run hf (Handle.new : Handle α H) ops).size path e pos = true) :
+    ∃ (i : Nat) (hi : i < (Handle.absRun ([] : List α) ops).length), pos = mmr i
+      ∧ e = (Handle.absRun ([] : List α) ops)[i]
+      ∧ (Handle.run hf (Handle.new : Handle α H) ops).merkleProof hf pos
+          = some ((Handle.run hf (Handle.new : Handle α H) ops).size, path) := by
+  have r := handle_run_rep hf ops _ _ (handle_new_rep hf) l
+  obtain ⟨o1, o2, _, _, o5, _⟩ := handle_observations hf _ _ r hb
+  rw [o2] at hr
+  cases hs : Spec.Mmr.root hf (Handle.absRun ([] : List α) ops) with
+  | none => rw [hs] at hr; cases hr
+  | some r' =>
+    rw [hs] at hr
+    injection hr with hr
+    subst hr
+    rw [o1] at hv ⊢
+    obtain ⟨i, hi, h1, h2, h3⟩ := proof_sound_any_position hf cf _ r' hs path e pos hv
+    exact ⟨i, hi, h1, h2, by rw [o5, h3]⟩
+
+/-- **A live handle and a fresh view agree.** Whatever the backend holds and wherever the handle
+stands inside it, `root`, `peaks`, `merkle_proof` and `get_hash` of the handle are those of a view
+(`ReadonlyPMMR::at`, `RewindablePMMR::at`) opened at the same size on the same backend. -/
+theorem handle_eq_fresh_view (hf : HashFn α H) (h : Handle α H) (hle : h.size ≤ h.be.hashes.length) :
+    h.root hf = vRoot hf ⟨h.be.hashes, h.be.removed⟩ h.size
+    ∧ h.peaks = vPeaks ⟨h.be.hashes, h.be.removed⟩ h.size
+    ∧ (∀ pos, h.merkleProof hf pos = vProof hf ⟨h.be.hashes, h.be.removed⟩ h.size pos)
+    ∧ (∀ pos, h.getHash pos = vGetHash ⟨h.be.hashes, h.be.removed⟩ h.size pos) :=
+  ⟨Handle.root_eq_view hf h hle, Handle.peaks_eq_view h hle,
+    Handle.merkleProof_eq_view hf h hle, Handle.getHash_eq_view h⟩
+
+/-- **A handle opened at a valid size inside a backend** that holds the MMR of `xs` (any data
+vector, any remove log): it is the MMR of the first `k` elements - root, peaks, and a verifying proof
+for every leaf `i < k` that is not pruned. -/
+theorem handle_at_valid_size [DecidableEq H] (hf : HashFn α H) (xs : List α) (hb : xs.length ≤ 2^65)
+    (b : VecBackend α H) (hbe : b.hashes = Spec.Mmr.hashes hf xs) (k : Nat) (hk : k ≤ xs.length) :
+    (Handle.openAt b (mmr k)).root hf = (match Spec.Mmr.root hf (xs.take k) with
+        | none => .zero
+        | some r => .ok r)
+    ∧ (Handle.openAt b (mmr k)).peaks = Spec.Mmr.peakHashes hf (xs.take k)
+    ∧ (∀ i (hi : i < k), mmr i ∉ b.removed → ∃ path rt,
+        (Handle.openAt b (mmr k)).merkleProof hf (mmr i) = some (mmr k, path)
+        ∧ (Handle.openAt b (mmr k)).root hf = .ok rt
+        ∧ verify hf rt (mmr k) path (xs[i]'(by omega)) (mmr i) = true) := by
+  have hlen := (push_root hf xs hb).2.1
+  simp only [Handle.openAt]
+  have hle : (⟨b, mmr k⟩ : Handle α H).size ≤ (⟨b, mmr k⟩ : Handle α H).be.hashes.length := by
+    simp only [hbe, hlen]; exact mmr_le_mmr hk
+  obtain ⟨e1, e2, e3, _⟩ := handle_eq_fresh_view hf ⟨b, mmr k⟩ hle
+  simp only [hbe] at e1 e2 e3
+  obtain ⟨v1, v2⟩ := view_root hf xs hb k hk b.removed
+  refine ⟨by rw [e1]; exact v1, by rw [e2, v2], ?_⟩
+  intro i hi hpresent
+  obtain ⟨path, rt, p1, p2, p3⟩ := view_proof_complete hf xs k hk b.removed i hi hpresent
+  exact ⟨path, rt, by rw [e3, p1], by rw [e1, v1, p2], p3⟩
+
+/-- … and it validates, serves for every unpruned leaf `i < k` the leaf hash of `xs[i]` and (when
+the data vector is `xs`) the element `xs[i]`, and serves nothing at or beyond its size - although
+the backend holds more. -/
+theorem handle_at_valid_size_reads [DecidableEq H] (hf : HashFn α H) (xs : List α) (hb : xs.length ≤ 2^65)
+    (b : VecBackend α H) (hbe : b.hashes = Spec.Mmr.hashes hf xs) (k : Nat) (hk : k ≤ xs.length) :
+    (Handle.openAt b (mmr k)).validate hf = true
+    ∧ (∀ i (hi : i < k), mmr i ∉ b.removed →
+        (Handle.openAt b (mmr k)).getHash (mmr i) = some (hf.leaf (mmr i) (xs[i]'(by omega)))
+        ∧ (b.data = some xs → (Handle.openAt b (mmr k)).getData (mmr i) = some (xs[i]'(by omega))))
+    ∧ (∀ pos, mmr k ≤ pos → (Handle.openAt b (mmr k)).getHash pos = none
+        ∧ (Handle.openAt b (mmr k)).getData pos = none
+        ∧ (Handle.openAt b (mmr k)).merkleProof hf pos = none) := by
+  have hlen := (push_root hf xs hb).2.1
+  simp only [Handle.openAt]
+  have hle : (⟨b, mmr k⟩ : Handle α H).size ≤ (⟨b, mmr k⟩ : Handle α H).be.hashes.length := by
+    simp only [hbe, hlen]; exact mmr_le_mmr hk
+  have hnone : ∀ pos, mmr k ≤ pos → (⟨b, mmr k⟩ : Handle α H).getHash pos = none := by
+    intro pos hp; simp [Handle.getHash, hp]
+  refine ⟨?_, ?_, ?_⟩
+  · rw [Handle.validate_eq hf _ hle]
+    simp only [hbe, hashes_take hf xs k hk]
+    exact (push_root hf (xs.take k) (by simp; omega)).2.2.2.2.2.2
+  · intro i hi hpresent
+    have hleaf : isLeaf (mmr i) = true := (isLeaf_iff _).2 ⟨i, rfl⟩
+    have hng : ¬ (mmr i ≥ mmr k) := by have := mmr_lt_mmr hi; omega
+    have hrem : b.removed.contains (mmr i) = false := by simpa using hpresent
+    constructor
+    · simp only [Handle.getHash, hng, if_false, hleaf, if_true, VecBackend.getHash, hrem,
+        VecBackend.getFromFile, hbe, Bool.false_eq_true]
+      exact hash_at_leaf hf xs i (by omega)
+    · intro hd
+      simp only [Handle.getData, hng, if_false, hleaf, if_true, VecBackend.getData, hrem,
+        VecBackend.getDataFromFile, hd, nLeaves_succ_leaf, Bool.false_eq_true]
+      have : i < xs.length := by omega
+      simp [this]
+  · intro pos hp
+    refine ⟨hnone pos hp, by simp [Handle.getData, hp], ?_⟩
+    unfold Handle.merkleProof
+    rw [hnone pos hp]
+    by_cases hl : isLeaf pos = true <;> simp [hl]
+
+-- non-vacuity of `handle_history_independent` / `handle_run_rep`: the rewind - re-push history.
+-- One handle pushes 10, 11, 12 (size 4), is rewound to position 1 (one leaf left) and gets 21, 22
+-- pushed: it is at size 4 again with other contents. Both histories are legal, end with the list
+-- [10, 21, 22], so the handle is in the state of the direct history - and NOT in the state it had at
+-- size 4 before: same size, different root.
+example :
+    let ops₁ : List (Handle.Op Nat) := [.push 10, .push 11, .push 12, .rewind 1, .push 21, .push 22]
+    let ops₂ : List (Handle.Op Nat) := [.push 10, .push 21, .push 22]
+    let before : List (Handle.Op Nat) := [.push 10, .push 11, .push 12]
+    Handle.Legal [] ops₁ ∧ Handle.Legal [] ops₂
+    ∧ Handle.absRun [] ops₁ = [10, 21, 22] ∧ Handle.absRun [] ops₂ = [10, 21, 22]
+    ∧ Handle.run (termHF Nat) Handle.new ops₁ = Handle.run (termHF Nat) Handle.new ops₂
+    ∧ (Handle.run (termHF Nat) Handle.new ops₁).size = (Handle.run (termHF Nat) Handle.new before).size
+    ∧ (Handle.run (termHF Nat) Handle.new ops₁).root (termHF Nat)
+        ≠ (Handle.run (termHF Nat) Handle.new before).root (termHF Nat) := by
+  intro ops₁ ops₂ before
+  have m1 : mmr 1 = 1 := by simp [mmr, popcount]
+  have m2 : mmr 2 = 3 := by simp [mmr, popcount]
+  have m3 : mmr 3 = 4 := by simp [mmr, popcount]
+  have r1 : roundUpToLeafPos 1 = 1 := by
+    have := roundUp_spec 1 0 (Nat.zero_le _); simpa [m1] using this
+  have n1 : nLeaves 1 = 1 := by have := nLeaves_at_leaf_boundary 1; rwa [m1] at this
+  have a1 : Handle.absRun [] ops₁ = [10, 21, 22] := by
+    simp [ops₁, Handle.absRun, Handle.absStep, r1, n1]
+  have a2 : Handle.absRun [] ops₂ = [10, 21, 22] := by
+    simp [ops₂, Handle.absRun, Handle.absStep]
+  have ab : Handle.absRun [] before = [10, 11, 12] := by
+    simp [before, Handle.absRun, Handle.absStep]
+  have l1 : Handle.Legal [] ops₁ := by
+    simp [ops₁, Handle.Legal, Handle.absStep, r1, n1, m3]
+  have l2 : Handle.Legal [] ops₂ := by simp [ops₂, Handle.Legal]
+  have lb : Handle.Legal [] before := by simp [before, Handle.Legal]
+  have e12 := handle_history_independent (termHF Nat) ops₁ ops₂ l1 l2 (by rw [a1, a2])
+  have rep1 := handle_run_rep (termHF Nat) ops₁ _ _ (handle_new_rep _) l1
+  have repb := handle_run_rep (termHF Nat) before _ _ (handle_new_rep _) lb
+  rw [a1] at rep1
+  rw [ab] at repb
+  obtain ⟨s1, o1, _⟩ := handle_observations (termHF Nat) _ _ rep1 (by decide)
+  obtain ⟨sb, ob, _⟩ := handle_observations (termHF Nat) _ _ repb (by decide)
+  refine ⟨l1, l2, a1, a2, e12, by rw [s1, sb]; rfl, ?_⟩
+  rw [o1, ob]
+  decide
+
+-- non-vacuity of `push_invalid_size_identity` / `invalid_size_reads`: 5 is not the size of any MMR
+-- (4 = three leaves, 7 = four); a handle opened at 5 over the 7 hashes of a four-leaf MMR refuses
+-- the push, has no peaks and no root, while the same backend opened at 4 is the MMR of [10, 11, 12]
+example :
+    let b : VecBackend Nat (HTerm Nat) :=
+      { data := some [10, 11, 12, 13], hashes := Spec.Mmr.hashes (termHF Nat) [10, 11, 12, 13] }
+    (¬ ∃ n, 5 = mmr n)
+    ∧ Handle.step (termHF Nat) (Handle.openAt b 5) (.push 99) = Handle.openAt b 5
+    ∧ (Handle.openAt b 5).peaks = [] ∧ (Handle.openAt b 5).root (termHF Nat) = .err
+    ∧ (Handle.openAt b 4).root (termHF Nat)
+        = .ok (.node 4 (.node 2 (.leaf 0 10) (.leaf 1 11)) (.leaf 3 12)) := by
+  intro b
+  have m3 : mmr 3 = 4 := by simp [mmr, popcount]
+  have t3 : trailingOnes 3 = 2 := by simp [trailingOnes]
+  have hinv : ¬ ∃ n, 5 = mmr n := by
+    rw [← validSize_iff]
+    have := peakMapHeight_coord 3 1 (by omega)
+    rw [m3] at this
+    simp [this]
+  have hinv' : ¬ ∃ n, (Handle.openAt b 5).size = mmr n := hinv
+  have hr := invalid_size_reads (termHF Nat) (Handle.openAt b 5) hinv'
+  refine ⟨hinv, (push_invalid_size_identity (termHF Nat) (Handle.openAt b 5) 99 hinv').2, hr.1, hr.2, ?_⟩
+  have := (handle_at_valid_size (termHF Nat) [10, 11, 12, 13] (by decide) b rfl 3 (by decide)).1
+  rw [m3] at this
+  rw [this]
+  decide
+
+end handle
 
 end GV.Props.C07
